@@ -136,6 +136,10 @@ func (c *collection) deleteIndexedDocWithID(
 	if err != nil {
 		return err
 	}
+	if doc == nil {
+		// The document does not exist (or has already been deleted), there is nothing to remove.
+		return nil
+	}
 	return c.deleteIndexedDoc(ctx, doc)
 }
 
